@@ -425,7 +425,8 @@ pub fn apply(p: &mut ProgramIr, t: &mut Tape, kind: &str) -> Option<String> {
     }
     "split-module" => {
       // move one class (no private members involved: G1 classes are public) into a new module
-      let cands: Vec<(usize, usize)> = p.modules.iter().enumerate().flat_map(|(mi, m)| m.classes.iter().enumerate().filter(|(_, c)| c.name != "Main" && !c.private).map(move |(ci, _)| (mi, ci))).collect();
+      // private classes are visible inside their module only: modules that have one are left alone
+      let cands: Vec<(usize, usize)> = p.modules.iter().enumerate().filter(|(_, m)| !m.classes.iter().any(|c| c.private)).flat_map(|(mi, m)| m.classes.iter().enumerate().filter(|(_, c)| c.name != "Main" && !c.private).map(move |(ci, _)| (mi, ci))).collect();
       if cands.is_empty() {
         return None;
       }
